@@ -75,7 +75,9 @@ def describe(c):
         if f == 0: return str(v)
         if f == 6: return repr(b2f(v))
         return name
-    if c[0] == 6: d["expr"] = "-%s" % txt(c[1], c[2], "a")
+    if c[0] == 6:
+        t = txt(c[1], c[2], "a")
+        d["expr"] = "-(%s)" % t if t.startswith("-") else "-%s" % t
     elif c[0] == 7: d["expr"] = "%s < | == | > %s" % (txt(c[1], c[2], "a"), txt(c[3], c[4], "b"))
     else: d["expr"] = "%s %s %s" % (txt(c[1], c[2], "a"), OPS[c[0]], txt(c[3], c[4], "b"))
     return d
@@ -322,8 +324,8 @@ def magnitude_bucket(z):
 def main():
     chk = Check("C08", "proof")
     chk.cov["trusted_base"] = TRUSTED_COMMON + [
-        "Print Assumptions: all ten theorems closed under the global context (no axioms)",
-        "float leg (float/float and int/float // % and comparison): NOT modelled in Coq - judged by an exact-rational oracle in tools/props/C08.py (Python fractions; float(int) and float(Fraction) are correctly rounded)"]
+        "Print Assumptions: all eleven theorems closed under the global context (no axioms)",
+        "float leg: the int/float comparison is modelled and proved exact in Coq (int_float_cmp_exact; `as f64` modelled as round-to-nearest-even on Z, float decoding and the hardware float compare modelled) and additionally judged by Python's exact int/float comparison; float/float and int/float // and % are NOT modelled in Coq - judged by an exact-rational oracle in tools/props/C08.py (Python fractions; float(int) and float(Fraction) are correctly rounded)"]
     chk.assumptions = [
         "integers held by values lie in [-2^127, 2^128) (value representation); operands are literals or i64/u64/i128/u128 values",
         "modelled: ops.rs::{coerce,add,sub,mul,int_div,rem,pow,neg,int_as_value} on integers, i128::try_from(Value), Value eq/cmp on integers, lexer eat_number integer branch, literal negation in codegen; "
@@ -343,7 +345,11 @@ def main():
     box_n = 0
     if chk.replay:
         rp = json.load(open(chk.replay))["replay"]
-        cases = rp.get("cases") or [rp["case"]]
+        cases = rp.get("cases") or ([rp["case"]] if "case" in rp else [])
+        if not cases:
+            log("replay file names no input (a proof / correspondence finding): running the whole check instead")
+            chk.replay = None
+    if chk.replay:
         icases = [c for c in cases if not (is_float_form(c[1]) or (c[0] != 6 and is_float_form(c[3])))]
         fcases = [c for c in cases if c not in icases]
     else:
@@ -500,9 +506,10 @@ def main():
     chk.cov["integer_cases"] = len(icases)
     chk.cov["float_cases"] = len(fcases)
     chk.cov["float_cases_judged"] = fjudged
-    pick = [0, len(icases) // 3, len(icases) // 2, len(icases) - 1]
-    chk.cov["samples"] = [dict(describe(icases[i]), answer=r["impl"][False][i]) for i in pick if i < len(icases)] + \
-                         [dict(describe(fcases[i]), answer=rf["impl"][False][i]) for i in (len(fcases) // 4, len(fcases) - 1) if 0 <= i < len(fcases)]
+    pick = sorted(set(i for i in (0, len(icases) // 3, len(icases) // 2, len(icases) - 1) if 0 <= i < len(icases)))
+    fpick = sorted(set(i for i in (len(fcases) // 4, len(fcases) - 1) if 0 <= i < len(fcases)))
+    chk.cov["samples"] = [dict(describe(icases[i]), answer=r["impl"][False][i]) for i in pick] + \
+                         [dict(describe(fcases[i]), answer=rf["impl"][False][i]) for i in fpick]
     chk.cov["distribution"] = dict(hist)
     chk.cov["impl_vs_model_disagreements"] = len(mism) + len(fmism)
     chk.cov["int_float_comparisons_through_model"] = fmodelled
